@@ -142,15 +142,15 @@ class BallCountHandler(BallDeviceStateHandler):
         ball_changes = asyncio.ensure_future(self.counter.wait_for_ball_count_changes(0))
         new_balls = await ball_changes
 
-        # update count
+        # update count (before awaiting anything: this task may be cancelled while the
+        # incoming balls handler processes the ball and the count has to be consistent then)
         old_ball_count = self._ball_count
-        self._ball_count = new_balls
+        self._set_ball_count(new_balls)
         if new_balls > old_ball_count:
             self.debug_log("BCH: Found %s new balls", new_balls - old_ball_count)
             # handle new balls via incoming balls handler
             for _ in range(new_balls - old_ball_count):
                 await self.ball_device.incoming_balls_handler.ball_arrived()
-            self._set_ball_count(new_balls)
 
         self.debug_log("A ball arrived. Progressing.")
 
